@@ -2,6 +2,7 @@
    consistent.  Only statements, each closed by `exact <lemma>`, with Print Assumptions. *)
 From Coq Require Import String.
 From Verif Require Import Lib.Base Lib.PyStr Model.Lv Proofs.Lv_proofs.
+From Verif Require Lib.PyOps Gen.Src_db Proofs.Src_refine.
 Open Scope string_scope.
 
 (* Every session identifier resolves to exactly the path (user, client, grant) it was created for:
@@ -31,3 +32,12 @@ Example C14_nonvacuous :
   sid_plain (PS "rnd") [PS "3:abc"; PS "a;b"; PS " x:;"] <> Err ValueError
   /\ branch_key [PS "a;;b"; PS "c"] = Err ValueError.
 Proof. split; [vm_compute; discriminate | reflexivity]. Qed.
+
+(* TIE BY TRANSLATION: Database.branch_key as it reads in /repo/src NOW (coq/Gen/Src_db.v, regenerated every run)
+   computes the model's branch_key: same refusals (divider inside an identifier, non-last identifier ending in ';'),
+   same joined key. *)
+Theorem C14_branch_key_is_source : forall args clock,
+  Src_db.branch_key_src (VList (List.map VStr args)) clock
+  = match branch_key args with Ok k => Ok (VStr k) | Err e => Err e | Unmodelled => Unmodelled end.
+Proof. exact Src_refine.branch_key_refines. Qed.
+Print Assumptions C14_branch_key_is_source.
